@@ -24,6 +24,8 @@ class Module:
         self.path = path
         self.source = source
         self.tree = ast.parse(source, filename=path)
+        from .desugar import desugar
+        self.tree, self.desugared = desugar(self.tree)
         self.imports = {}      # local name -> dotted target
         self.assigns = {}      # module-level name -> [value expr, ...]
         self.functions = {}    # name -> FunctionInfo
@@ -968,7 +970,19 @@ class Model:
         try:
             return self.functions[qualname]
         except KeyError:
-            raise AnalysisError("anchor vanished: function %s" % qualname)
+            pass
+        # a method that was moved to a base class / mixin (or whose override
+        # was removed) is still what the class does: the *effective* method
+        # along the MRO is the anchor, and the evidence says so
+        cq, _, name = qualname.rpartition(".")
+        if cq in self.classes:
+            f = self.lookup_method(cq, name)
+            if f is not None:
+                if not hasattr(self, "effective_anchors"):
+                    self.effective_anchors = {}
+                self.effective_anchors[qualname] = f.qualname
+                return f
+        raise AnalysisError("anchor vanished: function %s" % qualname)
 
     def has_fn(self, qualname):
         return qualname in self.functions
